@@ -243,14 +243,24 @@ class TypeCheckMethod(DeserializationMethod):
         return self.fallback.deserialize(data)
 
 
+def copy_containers(data: Any) -> Any:
+    if isinstance(data, dict):
+        return {key: copy_containers(value) for key, value in data.items()}
+    elif isinstance(data, list):
+        return [copy_containers(elt) for elt in data]
+    else:
+        return data
+
+
 @dataclass
 class AnyMethod(DeserializationMethod):
     constraints: Dict[type, Tuple[Constraint, ...]]
+    copy: bool = False
 
     def deserialize(self, data: Any) -> Any:
         if type(data) in self.constraints:
             validate_constraints(data, self.constraints[type(data)], None)
-        return data
+        return copy_containers(data) if self.copy else data
 
 
 @dataclass
